@@ -62,6 +62,12 @@ func (e *emitter) op(name string, args ...string) string {
 	curOpName = name
 	keptCur = nil
 	constArgs = nil
+	// the op line goes out BEFORE the op runs: if the implementation ends the process (os.Exit in a library, a fatal runtime
+	// error) the last, unfinished line names the op that did it
+	if !e.soaking {
+		fmt.Fprintf(e.w, "%s %s\t", name, strings.Join(args, " "))
+		e.w.Flush()
+	}
 	res := guardT(opLimit(name), func() string { return f(args) })
 	// input-only arguments must not have been written to by the implementation
 	if res != "hang" {
@@ -121,7 +127,7 @@ func (e *emitter) op(name string, args ...string) string {
 	} else {
 		keptPrev, keptCur = nil, nil
 	}
-	fmt.Fprintf(e.w, "%s %s\t%s\n", name, strings.Join(args, " "), res)
+	fmt.Fprintf(e.w, "%s\n", res)
 	// a sample of the ops is executed a second time at the end of the run, in reverse order (see replaySample)
 	if !e.replaying && res != "hang" {
 		if _, slow := opLimits[name]; !slow {
@@ -158,13 +164,13 @@ func (e *emitter) soak() {
 	keptCur = nil
 	keptPrev = append(keptLong, keptPrev...)
 	keptLong = nil
+	e.soaking = false
 	e.replaying = true
 	// every changed long-term result is reported (one per repeated op line)
 	for i := 0; i < len(e.sample) && i < 8; i++ {
 		e.op(e.sample[i].name, e.sample[i].args...)
 	}
 	e.replaying = false
-	e.soaking = false
 }
 
 var (
